@@ -1,23 +1,35 @@
 import GuppyVerif.Model.Dataflow
 /-! Model of `guppylang_internals/checker/linearity_checker.py` on a core fragment.
 
-    Input: the `CheckedCFG[Variable]` that `check_cfg_linearity` receives, restricted to flat
-    statements.  Places are given by their `leaf_places` (ids of the leaf projections, as
-    numbers) — the model never looks at types; `lin x` says that leaf `x` has a non-copyable,
-    non-droppable type (qubit), otherwise it is copyable and droppable (int, bool).
+    Input: the `CheckedCFG[Variable]` that `check_cfg_linearity` receives.  Places are given by
+    their `leaf_places`: ids of the leaf projections (numbers) **together with the kind of the
+    binding the occurrence refers to** (`true` = linear: not copyable, not droppable — qubit;
+    `false` = copyable and droppable — int, bool).  The kind belongs to the binding, not to the
+    name: a variable may be re-bound at a type of the other kind (`q = 3.25` after `measure(q)`),
+    exactly as the real `Scope` stores `Place` objects with their types (fix 0c7baf7 is about
+    keeping the two bindings of one name apart in pass 2).
+
+    A statement is the sequence of place-level actions the visitor performs on it, in the
+    visitor's order (so nested calls are covered, with their order of consumption):
+    `use p borrow` = `visit_PlaceNode(p, use_kind)` (`borrow` ⇔ `BORROW`), `give p` =
+    `_reassign_single_inout_arg(p)`, `dropAfter` = a borrowed argument that is not a place and not
+    droppable (`DropAfterCallError`); then the assignment targets; `dropsLin` = an expression
+    statement whose value is not droppable.
 
     The checker is modelled in its two passes:
 
-    * pass 1, `BBLinearityChecker.check` per block: `Scope` (`vars`, `used_local`,
-      `used_parent`, parent = the `input_scope` built from `bb.sig.input_row`; the entry block
-      uses the input scope itself), `visit_PlaceNode`, `visit_Assign` / `_check_assign_targets`,
-      `_visit_call_args` / `_reassign_inout_args`, `visit_Return`, `visit_Expr`;
+    * pass 1, `BBLinearityChecker.check` per block: `Scope` (`vars` with the kind of each stored
+      place, `used_local`, `used_parent`, parent = the `input_scope` built from
+      `bb.sig.input_row`; the entry block uses the input scope itself), `visit_PlaceNode`,
+      `visit_Assign` / `_check_assign_targets`, `_visit_call_args` / `_reassign_inout_args`,
+      `visit_Return`, `visit_Expr`;
     * pass 2, `check_cfg_linearity`: implicit use of the borrowed leaves in the exit block,
       `live_default`, `LivenessAnalysis(scope.stats(), initial=live_default,
       include_unreachable=False)` (the worklist of `Model/Dataflow.lean`), then per block the
-      "used but live in a successor" check and the "unused, not droppable, not live in all
-      successors" check (over the local places and the parent places the block does not
-      reassign) with the `x ∉ live_before_bb ∧ x ∉ scope.vars` skip.
+      "used but live in a successor" check (kind = that of the place flowing into the block) and
+      the "unused, not droppable, not live in all successors" check (over the local places and
+      the parent places the block does not reassign) with the
+      `x ∉ live_before_bb ∧ x ∉ scope.vars` skip.
 
     Python exceptions that are not user errors (assertion / KeyError on a place that is in no
     scope) are the result `crash`.  Import-free apart from the C09 dataflow model. -/
@@ -27,46 +39,31 @@ abbrev Leaf := Nat
 abbrev Var := Nat
 abbrev Blk := Nat
 
-/-- A place as the linearity checker sees it: `leaf_places(place)` (ids), whether it is a whole
-    `Variable` (and which), and whether the place is itself a leaf (its own id is its only leaf). -/
+/-- A place as the linearity checker sees it: `leaf_places(place)` (id and kind of each leaf),
+    whether it is a whole `Variable` (and which), and whether the place is itself a leaf. -/
 structure Place where
-  leaves : List Leaf
+  leaves : List (Leaf × Bool)
   var : Option Var
   isLeaf : Bool
   deriving Repr, Inhabited
 
-/-- a call argument that is a place: passed to an owned (`CONSUME`) or borrowed (`BORROW`) parameter -/
-inductive Arg where
-  | owned (p : Place)
-  | inout (p : Place)
+/-- what the visitor does with the places of a statement, in its order -/
+inductive Act where
+  | use (p : Place) (borrow : Bool)
+  | give (p : Place)
+  | dropAfter
   deriving Repr, Inhabited
 
-def Arg.place : Arg → Place
-  | .owned p => p
-  | .inout p => p
-
-def Arg.isInout : Arg → Bool
-  | .owned _ => false
-  | .inout _ => true
-
-/-- flat core statements.
-    * `move tgts srcs`: `ast.Assign` whose value is a place, a tuple of places or a constant
-      (`x = y`, `p = (a, b)`, `x, y = p`, `z = s.f`, `s.f = z`, `n = 1`); with `tgts = []` an
-      expression statement of a droppable place (the branch predicate).
-    * `call tgts args dropsLin`: `x = f(a…)` / `x, y = f(a…)` (`ast.Assign` of a `GlobalCall`),
-      or with `tgts = []` the expression statement `f(a…)`; `dropsLin` = the discarded result is
-      not droppable (`UnnamedExprNotUsedError`).  `x = qubit()`, `measure(q)`, `discard(q)`,
-      `h(q)` are instances.
-    * `ret srcs`: `return`, `return p`, `return (p, q)`. -/
-inductive Stmt where
-  | move (tgts srcs : List Place)
-  | call (tgts : List Place) (args : List Arg) (dropsLin : Bool)
-  | ret (srcs : List Place)
+/-- a statement: `ast.Assign` (value, then targets), `ast.Expr` (`tgts = []`; `dropsLin` = the
+    discarded value is not droppable), `ast.Return` / a branch predicate (`tgts = []`) -/
+structure Stmt where
+  acts : List Act
+  tgts : List Place
+  dropsLin : Bool
   deriving Repr, Inhabited
 
 /-- the `CheckedCFG[Variable]` handed to `check_cfg_linearity` -/
 structure Prog where
-  lin : Leaf → Bool
   /-- names of the parameters with `InputFlags.Inout` -/
   borrowedVars : List Var
   /-- `leaf_places` of those parameters -/
@@ -79,6 +76,8 @@ structure Prog where
   exitReachable : Bool
   /-- leaves of `bb.sig.input_row` (for the entry block: of the function inputs) -/
   row : Blk → List Leaf
+  /-- those of them whose type is linear -/
+  rowLin : Blk → List Leaf
   stmts : Blk → List Stmt
   succ : Blk → List Blk
 
@@ -88,6 +87,7 @@ inductive Err where
   | placeNotUsed          -- PlaceNotUsedError (pass 1: overwrite; pass 2: leak)
   | borrowShadowed        -- BorrowShadowedError
   | unnamedExprNotUsed    -- UnnamedExprNotUsedError
+  | dropAfterCall         -- DropAfterCallError
   | usedThenLive (borrowedLeaf : Bool)  -- pass 2: AlreadyUsedError, or BorrowSubPlaceUsedError when
                                         -- the recorded later use is the implicit return of a borrowed leaf
   | crash                 -- AssertionError / KeyError: a place that is in no scope
@@ -100,9 +100,11 @@ abbrev R := Except Err
 
 structure Scope where
   vars : List Leaf          -- keys of `vars`, insertion order
+  linVars : List Leaf       -- those whose stored place has a linear type
   usedLocal : List Leaf     -- keys of `used_local`
   usedParent : List Leaf    -- keys of `used_parent`
   parent : List Leaf        -- keys of `parent_scope.vars`; `[]` when there is no parent
+  linParent : List Leaf     -- those whose stored place has a linear type
   deriving Repr, Inhabited
 
 def ins (x : Leaf) (l : List Leaf) : List Leaf := if l.contains x then l else l ++ [x]
@@ -119,9 +121,11 @@ def Scope.use (s : Scope) (x : Leaf) : R Scope :=
   else if s.parent.contains x then .ok { s with usedParent := ins x s.usedParent }
   else .error .crash
 
-/-- `Scope.assign(place)` -/
-def Scope.assign (s : Scope) (x : Leaf) : Scope :=
-  { s with vars := ins x s.vars, usedLocal := s.usedLocal.filter (· != x) }
+/-- `Scope.assign(place)`; `k` = the new place has a linear type -/
+def Scope.assign (s : Scope) (xk : Leaf × Bool) : Scope :=
+  { s with vars := ins xk.1 s.vars,
+           linVars := if xk.2 then ins xk.1 s.linVars else s.linVars.filter (· != xk.1),
+           usedLocal := s.usedLocal.filter (· != xk.1) }
 
 /-! ## pass 1: `BBLinearityChecker` -/
 
@@ -131,60 +135,54 @@ def isInoutVar (P : Prog) (p : Place) : Bool :=
   | some v => P.borrowedVars.contains v
   | none => false
 
-/-- the loop body of `visit_PlaceNode` for one leaf -/
-def useLeaf (P : Prog) (s : Scope) (x : Leaf) : R Scope :=
-  match s.used x with
+/-- the loop body of `visit_PlaceNode` for one leaf (kind of the occurrence: `place.ty.copyable`) -/
+def useLeaf (s : Scope) (xk : Leaf × Bool) : R Scope :=
+  match s.used xk.1 with
   | none => .error .crash
-  | some u => if u && P.lin x then .error .alreadyUsed else s.use x
+  | some u => if u && xk.2 then .error .alreadyUsed else s.use xk.1
 
 /-- `visit_PlaceNode(node, use_kind)`; `borrow` = (`use_kind == BORROW`) -/
 def visitPlace (P : Prog) (borrow : Bool) (s : Scope) (p : Place) : R Scope :=
   if isInoutVar P p && !borrow then .error .notOwned
-  else p.leaves.foldlM (useLeaf P) s
+  else p.leaves.foldlM useLeaf s
 
-/-- `_visit_call_args` -/
-def visitArgs (P : Prog) (s : Scope) (args : List Arg) : R Scope :=
-  args.foldlM (fun s a => visitPlace P a.isInout s a.place) s
+/-- `_reassign_single_inout_arg` -/
+def givePlace (s : Scope) (p : Place) : Scope := p.leaves.foldl Scope.assign s
 
-/-- `_reassign_inout_args` (place arguments only) -/
-def reassignInout (s : Scope) (args : List Arg) : Scope :=
-  args.foldl (fun s a => if a.isInout then a.place.leaves.foldl Scope.assign s else s) s
+def doAct (P : Prog) (s : Scope) : Act → R Scope
+  | .use p borrow => visitPlace P borrow s p
+  | .give p => .ok (givePlace s p)
+  | .dropAfter => .error .dropAfterCall
 
-/-- the inner loop of `_check_assign_targets` for one leaf of a target -/
-def assignLeaf (P : Prog) (s : Scope) (x : Leaf) : R Scope :=
-  if s.vars.contains x && !s.usedLocal.contains x && P.lin x then .error .placeNotUsed
-  else .ok (s.assign x)
+/-- the inner loop of `_check_assign_targets` for one leaf of a target: the place stored under
+    the id so far must not be an unused linear one -/
+def assignLeaf (s : Scope) (xk : Leaf × Bool) : R Scope :=
+  if s.vars.contains xk.1 && !s.usedLocal.contains xk.1 && s.linVars.contains xk.1 then .error .placeNotUsed
+  else .ok (s.assign xk)
 
 /-- `_check_assign_targets` for one target place -/
 def assignTarget (P : Prog) (s : Scope) (t : Place) : R Scope :=
-  if t.isLeaf && isInoutVar P t && t.leaves.all s.vars.contains then .error .borrowShadowed
-  else t.leaves.foldlM (assignLeaf P) s
+  if t.isLeaf && isInoutVar P t && t.leaves.all (fun xk => s.vars.contains xk.1) then .error .borrowShadowed
+  else t.leaves.foldlM assignLeaf s
 
 /-- `_check_assign_targets`, then the shadowing loop at the end of `visit_Assign` -/
 def assignTargets (P : Prog) (s : Scope) (tgts : List Place) : R Scope := do
   let s ← tgts.foldlM (assignTarget P) s
   if tgts.any (isInoutVar P) then .error .borrowShadowed else .ok s
 
-def checkStmt (P : Prog) (s : Scope) : Stmt → R Scope
-  | .move tgts srcs => do
-    let s ← srcs.foldlM (visitPlace P false) s
-    assignTargets P s tgts
-  | .call tgts args dropsLin => do
-    let s ← visitArgs P s args
-    let s := reassignInout s args
-    if dropsLin then .error .unnamedExprNotUsed else assignTargets P s tgts
-  | .ret srcs => srcs.foldlM (visitPlace P false) s
+def checkStmt (P : Prog) (s : Scope) (st : Stmt) : R Scope := do
+  let s ← st.acts.foldlM (doAct P) s
+  if st.dropsLin then .error .unnamedExprNotUsed else assignTargets P s st.tgts
 
 /-- the scope `BBLinearityChecker.check` starts from: the entry block works directly in the
     input scope, every other block in a fresh child of it -/
 def initScope (P : Prog) (b : Blk) : Scope :=
-  if b = P.entry then ⟨P.row b, [], [], []⟩ else ⟨[], [], [], P.row b⟩
+  if b = P.entry then ⟨P.row b, P.rowLin b, [], [], [], []⟩ else ⟨[], [], [], [], P.row b, P.rowLin b⟩
 
 def checkBlock (P : Prog) (b : Blk) : R Scope :=
   (P.stmts b).foldlM (checkStmt P) (initScope P b)
 
 /-! ## pass 2: `check_cfg_linearity` -/
-
 /-- "Mark the borrowed variables as implicitly used in the exit BB" -/
 def exitUse (P : Prog) (s : Scope) : R Scope := P.borrowedLeaves.foldlM Scope.use s
 
@@ -216,9 +214,11 @@ def flowCfg (P : Prog) (sc : Blk → Scope) : Dataflow.Cfg where
   used := fun b => (sc b).usedParent
   assigned := fun b => (sc b).vars
 
-/-- "used but live in a successor", for one live place of one successor -/
-def checkLiveUsed (P : Prog) (s : Scope) (x : Leaf) : R Unit :=
-  if P.lin x then
+/-- "used but live in a successor", for one live place of successor `c`; its kind is that of the
+    place flowing into the block that uses it (`use_scope.parent_scope[x]`), which by the type
+    checker's `check_rows_match` is its kind in the row of `c` -/
+def checkLiveUsed (P : Prog) (c : Blk) (s : Scope) (x : Leaf) : R Unit :=
+  if (P.rowLin c).contains x then
     match s.used x with
     | none => .error .crash
     | some true => .error (.usedThenLive (P.borrowedLeaves.contains x))
@@ -226,13 +226,13 @@ def checkLiveUsed (P : Prog) (s : Scope) (x : Leaf) : R Unit :=
   else .ok ()
 
 /-- "unused, not droppable, not live in all successors", for one place of the scope -/
-def checkLeak (P : Prog) (live : Blk → List Leaf) (b : Blk) (s : Scope) (x : Leaf) : R Unit :=
+def checkLeak (P : Prog) (live : Blk → List Leaf) (b : Blk) (s : Scope) (lin : Bool) (x : Leaf) : R Unit :=
   if !(live b).contains x && !s.vars.contains x then .ok ()
   else
     let usedLater := (P.succ b).all fun c => (live c).contains x
     match s.used x with
     | none => .error .crash
-    | some u => if P.lin x && !u && !usedLater then .error .placeNotUsed else .ok ()
+    | some u => if lin && !u && !usedLater then .error .placeNotUsed else .ok ()
 
 /-- `live_places_row(bb, bb.sig.input_row, scope.parent_scope)`: `pred_scope[x]` raises `KeyError`
     for a live place that is not in the parent scope (entry and exit keep their original rows) -/
@@ -249,9 +249,11 @@ def checkOutRows (P : Prog) (live : Blk → List Leaf) (b : Blk) (s : Scope) : R
 /-- the body of `for bb, scope in scopes.items()`: the two checks, then the construction of the
     refined signature (which can only fail internally) -/
 def checkEdges (P : Prog) (live : Blk → List Leaf) (b : Blk) (s : Scope) : R Unit := do
-  (P.succ b).forM fun c => (live c).forM (checkLiveUsed P s)
-  -- the local places, then the places of the parent scope that this block does not reassign
-  (s.vars ++ s.parent.filter fun x => !s.vars.contains x).forM (checkLeak P live b s)
+  (P.succ b).forM fun c => (live c).forM (checkLiveUsed P c s)
+  -- the local places (kind of the stored place) …
+  s.vars.forM (fun x => checkLeak P live b s (s.linVars.contains x) x)
+  -- … then the places of the parent scope that this block does not reassign
+  (s.parent.filter fun x => !s.vars.contains x).forM (fun x => checkLeak P live b s (s.linParent.contains x) x)
   checkInRow P live b s
   checkOutRows P live b s
 
@@ -292,12 +294,30 @@ def liveOf (P : Prog) : Option (List (Blk × List Leaf)) :=
 
 /-- executable form of `Prog.WF` (Spec/C06.lean): the shape of the CFGs the checker receives;
     the driver checks it on every extracted CFG -/
+def actsWf : List Leaf → List Act → Bool
+  | _, [] => true
+  | seen, .use p _ :: r => actsWf (seen ++ p.leaves.map (·.1)) r
+  | seen, .give p :: r => p.leaves.all (fun xk => seen.contains xk.1) && actsWf seen r
+  | seen, .dropAfter :: r => actsWf seen r
+
 def Prog.wfb (P : Prog) : Bool :=
+  -- a borrowed argument is handed back only after it was lent, within the same statement
+  P.blocks.all (fun b => (P.stmts b).all fun st => actsWf [] st.acts) &&
   P.blocks.contains P.entry &&
   P.blocks.all (fun b => (P.succ b).all fun c => P.blocks.contains c) &&
   P.blocks.all (fun b => !(P.succ b).contains P.entry) &&
   (P.entry != P.exit) && (P.stmts P.exit).isEmpty && (P.succ P.exit).isEmpty &&
   P.blocks.all (fun b => b == P.exit || !(P.succ b).isEmpty)
+
+/-- all leaf ids that occur in the program -/
+def Prog.leafIds (P : Prog) : List Leaf :=
+  let ofPlaces (ps : List Place) := ps.flatMap fun p => p.leaves.map (·.1)
+  let ofAct : Act → List Leaf
+    | .use p _ => p.leaves.map (·.1)
+    | .give p => p.leaves.map (·.1)
+    | .dropAfter => []
+  P.borrowedLeaves ++ P.blocks.flatMap fun b =>
+    P.row b ++ (P.stmts b).flatMap fun st => st.acts.flatMap ofAct ++ ofPlaces st.tgts
 
 def accepts (P : Prog) : Bool :=
   match checkCfg P with
